@@ -566,6 +566,9 @@ func c05Program(c *Ctx, idx int, name string, p c05Prog, frag int) error {
 		if exErr == nil {
 			bad = c05Classify(ex.premature)
 		}
+		if bad == "" && name == "slice-lengths" {
+			bad = "c05:stream-cache:slice-length-collision"
+		}
 		if bad == "" && name == "hash-collision" {
 			bad = "c05:walloc:hash-chain-collision:stream-differs-from-whole"
 		}
@@ -658,7 +661,10 @@ func c05Program(c *Ctx, idx int, name string, p c05Prog, frag int) error {
 		npr = 2 // not evaluated by the model (quadratic in the number of ids)
 	}
 	obs := L(I(0), ex.listing, L(ps.circs...), Ints(ps.retIDs), bigsSX(s.gRes), Big(new(big.Int).SetBytes(hdr)), L(recvOuts...),
-		L(I(1), Bool(ex.constsTabled), I(npr)))
+		L(I(1), Bool(ex.constsTabled), I(npr), I(1)))
+	if ex.cacheHits > 0 {
+		c.Hist("circuit-cache-hit")
+	}
 	if ex.constsTabled {
 		c.Hist("consts-tabled")
 	} else {
@@ -673,6 +679,11 @@ func c05Program(c *Ctx, idx int, name string, p c05Prog, frag int) error {
 	line := len(in.String()) + len(obs.String())
 	if name == "big-circuit" {
 		c.Note("case %d (%s): %d gates, max permanent id %d, max tmp index %d, line %d bytes", idx, name, ps.gates, ps.max, ps.maxTmp, line)
+	}
+	if !c.Thorough() && ex.nSteps > 3000 {
+		// oracle only in the quick tier: the model needs ~15 s for such a list
+		c.Hist("case-too-long-for-quick-correspondence")
+		return nil
 	}
 	if line > 400000 {
 		c.Hist("case-too-large-for-correspondence")
@@ -736,6 +747,13 @@ func runC05(c *Ctx) error {
 	// permanent wire ids all stay below 65536
 	for i := 0; i < c.N(1, 3); i++ {
 		if err := c05Program(c, idx, "big-circuit", c05BigProg(c.rng.Fork(), i), 0); err != nil {
+			return err
+		}
+		idx++
+	}
+	// slices of different lengths feeding one opcode twice (the circuit cache)
+	for _, p := range c05SlicePrograms(c) {
+		if err := c05Program(c, idx, "slice-lengths", p, 0); err != nil {
 			return err
 		}
 		idx++
